@@ -7,7 +7,9 @@ for d in ${@:-refactors/*}; do
   n=$(basename $d)
   git -C /repo diff --quiet || { echo "/repo dirty"; exit 2; }
   git -C /repo apply /verif/$d/patch.diff || { echo "$n: patch failed"; continue; }
-  suite=$(cd /repo && go build ./... >/dev/null 2>&1 && go test -vet=off -count=1 ./... >/dev/null 2>&1; echo $?)
+  # NOSUITE=1 skips the build + test suite (every corpus item was validated with it when it was imported)
+  suite=skipped
+  [ -z "$NOSUITE" ] && suite=$(cd /repo && go build ./... >/dev/null 2>&1 && go test -vet=off -count=1 ./... >/dev/null 2>&1; echo $?)
   alarms=$(printf "%s\n" $PROPS | xargs -P 10 -I{} sh -c 'bin/cdlint -prop {} -repo /repo -evidence "" 2>&1 | grep -q "^VIOLATION" && echo {}' | sort | tr "\n" " ")
   git -C /repo checkout -- . && git -C /repo clean -fdq
   st=SILENT; [ -n "$alarms" ] && st=ALARM
